@@ -1017,3 +1017,25 @@ def r12(rr, repo):
     pre = [n for n in init.body if isinstance(n, ast.Assign) and any('self.metrics_' == U(t) for t in n.targets)]
     first_try = min([n.lineno for n in init.body if isinstance(n, ast.Try)] or [10 ** 9])
     rr.ob('everything MQ.destroy touches exists before the first endpoint is created', bool(pre) and pre[0].lineno < first_try, mod, pre[0] if pre else init, witness=f'self.metrics_ assigned at line {pre[0].lineno if pre else None}, try at {first_try}', key='destroy-usable-early')
+
+
+@rule('C08.R13', "an obeyed exit keeps its kind on the way out of the message layer: the exit of a neighbour reaches the filter through the out-of-band callback, which raises (Filter.Exit for a clean exit, "
+                 "PropagateError - an Exception - for an error exit) from inside recv() / send(). Nothing between the callback and the filter's loop catches it: an `except Exception` around the "
+                 "callback swallows exactly the error kind, the stop event is already set, the filter ends 'clean' and tells its own neighbours so")
+def r13(rr, repo):
+    from ..model import ancestors as _anc
+    zm = repo.module(Z)
+    calls = [c for c in q.calls_in(zm.tree) if U(c.func) == 'self.message_oob']
+    rr.floor('calls of the out-of-band callback in the ZeroMQ layer', len(calls), 2, zm, zm.tree)
+    for c in calls:
+        fn = enclosing_function(c)
+        bad = None
+        for t in [a for a in _anc(c) if isinstance(a, ast.Try)]:
+            if not any(x is c for st_ in t.body for x in ast.walk(st_)):
+                continue
+            for h in t.handlers:
+                wide = h.type is None or any(U(e) in ('Exception', 'BaseException') for e in (h.type.elts if isinstance(h.type, ast.Tuple) else [h.type]))
+                reraises = any(isinstance(x, ast.Raise) and x.exc is None for x in ast.walk(h))
+                if wide and not reraises:
+                    bad = h
+        rr.ob('what the out-of-band callback raises leaves the message layer', bad is None, zm, bad or c, witness=(U(bad.type) if bad is not None and bad.type is not None else 'no handler swallows it') + f' in {qualname(fn)}', key=f'oob-exception-propagates|{qualname(fn)}')
